@@ -8,6 +8,7 @@ Open Scope string_scope. Open Scope list_scope.
 Record gen_obs := {
   g_keys : list string;                                  (* path keys / OpenRPC method names, in document order *)
   g_entries : list (string * (list Z * list string));    (* per key: documented error codes (closure of the entry), direct references (component names) *)
+  g_names : list (string * string);                      (* per key: the method name its request schema documents (const of `method`) *)
   g_components : list string;                            (* component keys *)
   g_all_refs : list string;                              (* every reference of the document *)
   g_digest : string;                                     (* digest of the whole document *)
@@ -37,6 +38,9 @@ Definition ok (c : case) : bool :=
      (* complete: every registered method exactly once under its key *)
      nodup_str (g_keys g) && forallb (fun m => mem_str (sm_key m) (g_keys g)) (methods c)
      && Nat.eqb (List.length (g_keys g)) (List.length (methods c))
+     (* ... and under its own exposed name: the request schema of an entry names the method of that entry *)
+     && forallb (fun kn => let k := fst kn in
+                           String.eqb (snd kn) (match index 0 "#" k with Some i => substring (S i) (String.length k) k | None => k end)) (g_names g)
      (* closed: no dangling reference *)
      && forallb (fun r => mem_str r (g_components g)) (g_all_refs g)
      (* isolated: a method documents its own errors only and refers to components under its own prefix only *)
